@@ -58,31 +58,47 @@ def rule_r1(chk):
     chk.saw(im, "_block_iterator")
     initials = [n[0] for n in members]
     chk.ob("C19-R1", "dates.Frequency[distinct initials]", len(set(initials)) == len(initials), f"member initials {initials}", dm.loc(dm.cls("Frequency")))
-    for name in members:
+    fvals = {}
+    for st in dm.cls("Frequency").body:
+        if isinstance(st, ast.Assign) and isinstance(st.targets[0], ast.Name):
+            try:
+                fvals[st.targets[0].id] = literal(st.value)
+            except AnalysisError:
+                pass
+    letter_expr = next((n for n in ast.walk(is_start) if isinstance(n, ast.Assign) and unparse(n.targets[0]) == "letter"), None)
+    norm = next((n for n in ast.walk(fl) if isinstance(n, ast.Assign) and unparse(n.targets[0]) == "letter"), None)
+
+    def decode(text):
+        """member the reader's Frequency.from_letter finds for text; None if it raises / finds nothing"""
         try:
-            mark = run_str_function(gm, {params(gm)[0]: None}, globals_env={f"{params(gm)[0]}.name": name})
+            l2 = eval_str(norm.value, {params(fl)[1]: text})
+        except NotAString:
+            return None
+        return next((mname for mname in members if isinstance(l2, str) and l2 and mname.startswith(l2)), None)
+    for name in members:
+        fp = params(gm)[0]
+        try:
+            mark = run_str_function(gm, {fp: None}, globals_env={f"{fp}.name": name, f"{fp}.value": fvals.get(name)})
         except NotAString as e:
-            chk.undecided("C19-R1", f"databoxes._exports._get_frequency_mark[{name}]", str(e), em.loc(gm))
+            chk.undecided("C19-R1", f"databoxes[frequency mark {name}]", str(e), em.loc(gm))
             continue
-        # reader side: _is_start tests prefix and looks up the first letter after the prefix
+        if letter_expr is None or norm is None:
+            chk.undecided("C19-R1", f"databoxes[frequency mark {name}]", "reader shape not recognised", im.loc(is_start))
+            continue
         try:
             pref_ok = run_str_function(is_end, {params(is_end)[0]: mark}) is True
-            # letter the reader extracts
-            src = squash(is_start)
-            letter_expr = next((n for n in ast.walk(is_start) if isinstance(n, ast.Assign) and unparse(n.targets[0]) == "letter"), None)
-            letter = eval_str(letter_expr.value, {params(is_start)[0]: mark}) if letter_expr is not None else None
-            # from_letter(letter) -> first member whose name starts with the normalised letter
-            norm = next((n for n in ast.walk(fl) if isinstance(n, ast.Assign) and unparse(n.targets[0]) == "letter"), None)
-            l2 = eval_str(norm.value, {params(fl)[1]: letter}) if norm is not None and letter is not None else None
-            found = next((mname for mname in members if l2 is not None and mname.startswith(l2)), None)
-            # and the call on the whole cell used to set current_frequency
-            l3 = eval_str(norm.value, {params(fl)[1]: mark}) if norm is not None else None
-            found_cell = next((mname for mname in members if l3 is not None and mname.startswith(l3)), None)
-            ok = pref_ok and found == name and found_cell == name
-            chk.ob("C19-R1", f"databoxes[frequency mark {name}]", ok,
-                   f"writer mark {mark!r}; reader prefix test {pref_ok}, letter {letter!r} -> {found}, whole cell -> {found_cell}", em.loc(gm))
-        except (NotAString, StopIteration, AttributeError) as e:
-            chk.undecided("C19-R1", f"databoxes[frequency mark {name}]", str(e), im.loc(is_start))
+        except NotAString as e:
+            chk.undecided("C19-R1", f"databoxes[frequency mark {name}]", str(e), im.loc(is_end))
+            continue
+        try:
+            letter = eval_str(letter_expr.value, {params(is_start)[0]: mark})
+        except NotAString:
+            letter = None        # the reader raises inside its try block -> cell is not a block start
+        found = decode(letter) if isinstance(letter, str) else None
+        found_cell = decode(mark)
+        ok = pref_ok and found == name and found_cell == name
+        chk.ob("C19-R1", f"databoxes[frequency mark {name}]", ok,
+               f"writer mark {mark!r}; reader prefix test {pref_ok}, letter {letter!r} -> {found}, whole cell -> {found_cell}", em.loc(gm))
     src = squash(fl)
     ok = "returnnext((xforxinklassifx.name.startswith(letter)))" in src
     chk.ob("C19-R1", "dates.Frequency.from_letter", ok, "first member (definition order) whose name starts with the letter", dm.loc(fl))
